@@ -8,8 +8,11 @@ lean/YProofs/Props/C07.lean):
  (ii)  eager oracles on the real code against an INDEPENDENT NumPy Jordan-Wigner reference (explicit strings
        Z^{|A|} on the sites that precede in the fermionic order, operators applied in the USER's order):
        `generate_mpo` (+ the LaTeX `Generator`, fresh and with a history of calls on one instance: defaults at
-       construction, per-call overrides), `measure_1site` (all sites, one site, dict, user-ordered `sites`),
-       `measure_2site` (every pattern string, i<j, i=j, i>j, dict operators, explicit bond lists in any order),
+       construction, per-call overrides; and on free-form expressions with numeric literals, several scalar factors per
+       product, nested brackets, sums and custom site labels, against an independent distributive expansion),
+       `measure_1site` (all sites, one site, dict, user-ordered `sites`, site-dependent dict operators),
+       `measure_2site` (every pattern string, i<j, i=j, i>j, dict operators incl. operators that differ from site to
+       site, explicit bond lists in any order),
        `measure_nsite` (incl. re-orderings of the operator sequence), `rdm`, `sample(..., return_probabilities=True)`;
        bosonic families: all strings absent (plain Kronecker products);
  (iii) correspondence of the Lean model (user-order product AND generate_mpo's sign/string rule, `parse2siteBonds`)
@@ -702,6 +705,38 @@ def build_states(fam, N, rng, op_names, cplx):
     return None
 
 
+def site_dependent_ops(fam, rng, N, name, sites):
+    """operators that DIFFER from site to site, all of the charge of `name` (the documented requirement for dict operators):
+    c * A or c * A + c2 * A2 with A, A2 drawn from the operators of that charge.  Returns ({site: Tensor}, {site: (matrix, charge)})"""
+    n0 = fam.table[name][2]
+    same = [nm for nm in fam.names if fam.table[nm][2] == n0]
+    ten, mat = {}, {}
+    for s in sites:
+        nm = name if rng.random() < 0.6 else rng.choice(same)
+        c = rng.choice([-2, -1, 2, 3, 0.5, -1.5, 1])
+        if rng.random() < 0.15:
+            c = c * 1j
+        T, M = c * fam.table[nm][0], c * fam.table[nm][1]
+        if rng.random() < 0.25:
+            nm2, c2 = rng.choice(same), rng.choice([-1, 2, 0.5])
+            T, M = T + c2 * fam.table[nm2][0], M + c2 * fam.table[nm2][1]
+        ten[s], mat[s] = T, (np.array(M), n0)
+    return ten, mat
+
+
+def expect_mats(fam, N, bra, ket, seq):
+    """<bra| A_1@s_1 A_2@s_2 ... |ket> for explicit local matrices; seq = [(site, matrix, charge), ...] in the user's order"""
+    X = ket
+    fpos = list(range(N))
+    for s, A, nA in reversed(seq):
+        X = apply_embed(fam, N, fpos, s, A, nA, X)
+    return complex(np.vdot(bra, X))
+
+
+def opnorm1(M):
+    return max(1.0, float(np.abs(M).sum(axis=1).max()))
+
+
 def check_measure_case(ctx, case):
     """case: {kind:'measure', fam, N, seed, which, ...}; all randomness derived from case['seed']"""
     import random
@@ -773,6 +808,17 @@ def check_measure_case(ctx, case):
                 if sorted(g3) != want or any(not close(g3[i], ref[i], scale) for i in want):
                     bad("c07:measure_1site:user-order", f"measure_1site({how}) = {dict(g3)} expected "
                         f"{ {i: ref[i] for i in want} }")
+            # operators that differ from site to site (dict {site: operator}, all of one charge, arbitrary insertion order)
+            for _u in range(int(case.get("site_dependent", 0))):
+                so = rng.sample(range(N), rng.randint(1, N))
+                Od, Om = site_dependent_ops(fam, rng, N, O, so)
+                sc = scale * max(opnorm1(Om[i][0]) for i in so)
+                g4 = mps.measure_1site(bra, Od, ket)
+                r4 = {i: expect_mats(fam, N, vb, vk, [(i,) + Om[i]]) for i in so}
+                ctx.count("measure:1site:site-dependent-evals")
+                if sorted(g4) != sorted(so) or any(not close(g4[i], r4[i], sc) for i in so):
+                    bad("c07:measure_1site:site-dependent", f"measure_1site with site-dependent operators {{site: c_site * operator}} on sites "
+                        f"{so} = {dict(g4)} expected {r4}")
         elif which == "2site":
             O, P = names
             ref = {}
@@ -825,6 +871,48 @@ def check_measure_case(ctx, case):
                 if sorted(g) != exp_pairs or any(not close(g[b], ref[b], scale) for b in exp_pairs):
                     bad("c07:measure_2site:bond-list", f"measure_2site(bonds={bl}, O on {list(so)}, P on {list(spp)}) = {dict(g)} "
                         f"expected { {b: ref[b] for b in exp_pairs} }")
+            # operators that DIFFER from site to site: O and/or P as dicts {site: operator} (all of one charge, arbitrary insertion
+            # order, any subset of sites); every requested bond (i, j) -- i<j, i=j, i>j -- must use O[i] and P[j]
+            for _u in range(int(case.get("site_dependent", 0))):
+                form = rng.choice(["dict-dict", "dict-dict", "dict-tensor", "tensor-dict"])
+                so = rng.sample(range(N), rng.randint(1, N)) if form != "tensor-dict" and rng.random() < 0.6 else list(range(N))
+                spp = rng.sample(range(N), rng.randint(1, N)) if form != "dict-tensor" and rng.random() < 0.6 else list(range(N))
+                if form == "tensor-dict":
+                    Oa, Om = T[O], {i: (fam.table[O][1], fam.table[O][2]) for i in range(N)}
+                else:
+                    Oa, Om = site_dependent_ops(fam, rng, N, O, so)
+                if form == "dict-tensor":
+                    Pa, Pm = T[P], {i: (fam.table[P][1], fam.table[P][2]) for i in range(N)}
+                else:
+                    Pa, Pm = site_dependent_ops(fam, rng, N, P, spp)
+                sc = max(1.0, float(np.linalg.norm(vb) * np.linalg.norm(vk))) * max(opnorm1(Om[i][0]) for i in so) * max(opnorm1(Pm[j][0]) for j in spp)
+                refd = {(i, j): expect_mats(fam, N, vb, vk, [(i,) + Om[i], (j,) + Pm[j]]) for i in so for j in spp}
+                bl = [(rng.randrange(N), rng.randrange(N)) for _ in range(rng.randint(1, 2 * N))] + [(i, i) for i in rng.sample(range(N), rng.randint(1, N))]
+                rng.shuffle(bl)
+                common = sorted(set(so) & set(spp))
+                requests = [rng.choice(["a", "<=>", "=", "<=", "=>", "r0", "r0r1", "r-1r0p"]), rng.choice(PATTERNS), bl]
+                if common:
+                    requests.append((rng.choice(common),) * 2)
+                for bonds in requests:
+                    g = mps.measure_2site(bra, Oa, Pa, ket, bonds=bonds)
+                    ctx.count(f"measure:2site:site-dependent:{form}")
+                    if isinstance(bonds, tuple):
+                        g = {bonds: g}
+                        exp_pairs = [bonds]
+                    else:
+                        asked = doc_pairs(bonds, N) if isinstance(bonds, str) else bonds
+                        exp_pairs = sorted({b for b in asked if b[0] in so and b[1] in spp})
+                    if not isinstance(g, dict) or sorted(g) != exp_pairs:
+                        bad("c07:measure_2site-pairs", f"measure_2site(bonds={bonds!r}, site-dependent O on {so}, P on {spp}) returned bonds "
+                            f"{sorted(g) if isinstance(g, dict) else g} expected {exp_pairs}")
+                        continue
+                    wrong = [(b, g[b], refd[b]) for b in exp_pairs if not close(g[b], refd[b], sc)]
+                    if wrong:
+                        b = wrong[0][0]
+                        rel = "i<j" if b[0] < b[1] else "i=j" if b[0] == b[1] else "i>j"
+                        bad(f"c07:measure_2site:site-dependent:{rel}", f"measure_2site(bonds={bonds!r}) with site-dependent operators ({form}: "
+                            f"O on sites {so}, P on sites {spp}, each c_site * operator of the charge of {O} / {P}) differs from "
+                            f"<bra|O[i]_i P[j]_j|ket> at {wrong[:3]}")
         elif which == "nsite":
             sites = case["sites"]
             # the sequence as given, then random re-orderings of the same (operator, site) pairs: same total charge, hence the
@@ -1218,6 +1306,377 @@ def check_latex_case(ctx, case):
 
 
 # ----------------------------------------------------------------------------------------------------
+# LaTeX Generator: free-form expressions (numeric literals, several scalar factors per term, brackets, sums)
+# ----------------------------------------------------------------------------------------------------
+# The strings above carry every amplitude in ONE named parameter per term.  The documented LaTeX dialect is richer
+# (Generator notes + mpo_from_latex / string2list docstrings): "+" adds, "-" adds with a factor -1, a space or "*" multiplies
+# "by a number or by an operator", numbers may be "written directly", round brackets group, \sum_{j \in A} / \sum_{j,k \in A}
+# iterate.  Here a random EXPRESSION TREE is generated top-down under the constraint that all expanded products carry the
+# same total charge; it is rendered to a string for the real code and, independently, expanded by the distributive law
+# (operators kept in their left-to-right order, all scalar factors of a product multiplied) for the NumPy JW reference.
+#
+# tree (JSON):  expr = [[sign, prod], ...];  prod = {"f": [factor, ...], "s": [separator between consecutive factors]};
+# factor = ["num", text] | ["par", name] | ["elt", name, [index, ...]] | ["imag"] | ["op", table name, index]
+#        | ["br", expr] | ["sum", [iterator, ...], list name, prod]   (a sum is always the LAST factor of its product);
+# index = iterator symbol (str) or site number (int, written through the site labels).
+#
+# Candidate defects of the parser met while building this stratum (unchanged tree), each in its OWN gated stratum (counted,
+# described in the evidence notes, an alarm only once the key is registered), never in the main stratum:
+KEY_LATEX_SCALED_SUM = "c07:latex-factor-times-sum-with-brackets"    # `- \sum .. t (A + B)`, `2 * \sum .. (A + B)`: stray tokens
+KEY_LATEX_JUXT_SUM = "c07:latex-factor-juxtaposed-to-sum"            # `0.5 \sum ..` (no `*`): RecursionError
+GX_LITERALS = ["2", "3", "4", "0.5", "0.25", "1.5", "0.125", "2.0", "10", "0.75"]
+GX_ITERS = [["j", "k"], ["l", "m"]]
+
+
+def gx_pool(fam):
+    avail = set(fam.ops.to_dict().keys())
+    return [nm for nm in fam.names if latex_name(nm) in avail]
+
+
+def gx_scalar(rng, st, syms, N):
+    """one scalar factor; st collects the parameters it needs"""
+    r = rng.random()
+    if r < 0.42:
+        return ["num", rng.choice(GX_LITERALS)]
+    if r < 0.72:
+        nm = f"g{len(st['params'])}"
+        st["params"][nm] = {"amp": rand_amp(rng)}
+        return ["par", nm]
+    if r < 0.87:
+        return ["imag"]
+    kind = rng.choice(["M", "V"])
+    nm = f"{kind}{len(st['params'])}"
+    cplx = rng.random() < 0.25
+    shape = (N, N) if kind == "M" else (N,)
+    cnt = N * N if kind == "M" else N
+    vals = [[rng.choice([-2, -1, 1, 2, 3, 0.5, -1.5]), rng.choice([-1, 1, 2]) if cplx else 0] for _ in range(cnt)]
+    st["params"][nm] = {"arr": vals, "shape": list(shape), "cplx": cplx}
+    return ["elt", nm, [rng.choice(syms) if syms and rng.random() < 0.7 else rng.randrange(N) for _ in shape]]
+
+
+def gx_prod(fam, N, rng, st, target, depth, syms):
+    """a product of total charge `target`: an operator word in which consecutive chunks may be replaced by a bracketed sum of
+    alternatives of the chunk's charge, with scalar factors (literals, parameters, 1j, array elements) inserted anywhere"""
+    pool = [n for n in st["pool"] if n != "I"] or ["I"]
+    names = None
+    for _ in range(300):
+        k = rng.choice([1, 1, 2, 2, 3])
+        cand = [rng.choice(pool) if rng.random() < 0.9 else "I" for _ in range(k)]
+        if term_charge(fam, cand) == tuple(target):
+            names = cand
+            break
+    if names is None:
+        return None
+    if syms and rng.random() < 0.85:
+        idx = [rng.choice(syms) if rng.random() < 0.8 else rng.randrange(N) for _ in names]
+        if not any(isinstance(i, str) for i in idx):
+            idx[rng.randrange(len(idx))] = rng.choice(syms)
+    else:
+        idx = [rng.randrange(N) for _ in names]
+    ops_ = [["op", nm, ix] for nm, ix in zip(names, idx)]
+    # consecutive chunks
+    cuts = sorted(set(rng.sample(range(1, len(ops_)), rng.randint(0, len(ops_) - 1)))) if len(ops_) > 1 else []
+    chunks = [ops_[a:b] for a, b in zip([0] + cuts, cuts + [len(ops_)])]
+    factors = []
+    for ch in chunks:
+        if depth > 0 and rng.random() < 0.4:
+            cch = term_charge(fam, [o[1] for o in ch])
+            items = [[rng.choice([1, 1, -1]), gx_decorate(rng, st, {"f": list(ch), "s": []}, syms, N, few=True)]]
+            for _a in range(rng.choice([1, 1, 2])):
+                if cch == fam.zero() and rng.random() < 0.12:
+                    alt = gx_decorate(rng, st, {"f": [], "s": []}, syms, N, few=True, atleast=1)     # pure number, e.g. (n_{j} - 0.5)
+                else:
+                    alt = gx_prod(fam, N, rng, st, cch, depth - 1, syms)
+                if alt is None:
+                    return None
+                items.append([rng.choice([1, 1, -1]), alt])
+            rng.shuffle(items)
+            factors.append(["br", items])
+        else:
+            factors.extend(ch)
+    return gx_decorate(rng, st, {"f": factors, "s": []}, syms, N)
+
+
+def gx_decorate(rng, st, prod, syms, N, few=False, atleast=0):
+    """insert scalar factors at random places of the product and choose the separators"""
+    f = list(prod["f"])
+    for _ in range(max(atleast, rng.choice([0, 0, 1] if few else [0, 1, 1, 2, 2, 3]))):
+        f.insert(rng.randint(0, len(f)), gx_scalar(rng, st, syms, N))
+    return {"f": f, "s": [rng.choice([" ", " ", " * ", "*"]) for _ in range(max(0, len(f) - 1))]}
+
+
+def gx_sum(fam, N, rng, st, target, depth, level):
+    """["sum", iterators, list, body]: one or two iterators over a random list of sites / site pairs (repetitions allowed)"""
+    its = GX_ITERS[level][: rng.choice([1, 2])]
+    nm = f"L{len(st['params'])}"
+    if len(its) == 1:
+        lst = [rng.randrange(N) for _ in range(rng.randint(1, N))] if rng.random() < 0.5 else rng.sample(range(N), rng.randint(1, N))
+    else:
+        allp = [(a, b) for a in range(N) for b in range(N) if a != b] + [(a, a) for a in range(N)][: 1]
+        lst = [list(p) for p in rng.sample(allp, rng.randint(1, min(len(allp), N + 1)))]
+    st["params"][nm] = {"list": lst}
+    if level == 0 and rng.random() < 0.12:
+        inner = gx_sum(fam, N, rng, st, target, depth, 1)
+        if inner is None:
+            return None
+        # nested sum: the body of the outer sum is the inner sum, whose body may use the iterators of both
+        inner[3] = gx_prod(fam, N, rng, st, target, depth, its + inner[1])
+        if inner[3] is None:
+            return None
+        body = {"f": [inner], "s": []}
+    else:
+        body = gx_prod(fam, N, rng, st, target, depth, its)
+        if body is None:
+            return None
+    return ["sum", its, nm, body]
+
+
+def gx_has_br(prod):
+    return any(f[0] == "br" or (f[0] == "sum" and gx_has_br(f[3])) for f in prod["f"])
+
+
+def gx_risks(expr):
+    """which forms known to break the unchanged parser occur (see KEY_LATEX_SCALED_SUM / KEY_LATEX_JUXT_SUM)"""
+    out = set()
+    for sign, prod in expr:
+        fs = prod["f"]
+        for i, f in enumerate(fs):
+            if f[0] == "br":
+                out |= gx_risks(f[1])
+            elif f[0] == "sum":
+                out |= gx_risks([[1, f[3]]])
+                if (i > 0 or sign < 0) and gx_has_br(f[3]):
+                    out.add("scaled-sum-brackets")
+                if i > 0 and prod["s"][i - 1].strip() != "*":
+                    out.add("juxtaposed-sum")
+    return out
+
+
+def gx_generate(fam, N, rng, want):
+    """(expr, params) of stratum `want` in main | scaled-sum-brackets | juxtaposed-sum; None if not found"""
+    for _try in range(60):
+        st = {"params": {}, "pool": gx_pool(fam)}
+        pool = [n for n in st["pool"] if n != "I"] or ["I"]
+        first = [rng.choice(pool) for _ in range(rng.choice([1, 2, 2, 3]))]
+        target = term_charge(fam, first)
+        expr, ok = [], True
+        for _i in range(rng.choice([1, 2, 2, 3])):
+            depth = rng.choice([0, 1, 1, 2])
+            if rng.random() < (0.45 if want == "main" else 0.8):
+                sm = gx_sum(fam, N, rng, st, target, depth, 0)
+                if sm is None:
+                    ok = False
+                    break
+                pre = {"f": [], "s": []}
+                if rng.random() < (0.35 if want == "main" else 0.7):
+                    pre = gx_decorate(rng, st, pre, [], N, few=True, atleast=0 if want == "main" else 1)
+                glue = " " if want == "juxtaposed-sum" else rng.choice([" * ", "*", " * ", " "])
+                prod = {"f": pre["f"] + [sm], "s": pre["s"] + ([glue] if pre["f"] else [])}
+            else:
+                prod = gx_prod(fam, N, rng, st, target, depth, [])
+                if prod is None:
+                    ok = False
+                    break
+            expr.append([rng.choice([1, 1, -1]), prod])
+        if not ok:
+            continue
+        risks = gx_risks(expr)
+        if (want == "main" and risks) or (want != "main" and risks != {want}):
+            continue
+        try:
+            terms = gx_expand(expr, {}, gx_values(st["params"], N))
+        except KeyError:
+            continue
+        if not 1 <= len(terms) <= 48 or any(onsite_zero(fam, [p for p, _ in o], [n for _, n in o]) for _, o in terms if o):
+            continue        # keep finding D8 (vanishing on-site product) out of this stratum
+        if len(terms) >= 2 and any(np.iscomplexobj(fam.table[n][1]) for _, o in terms for _, n in o) and \
+                not any(isinstance(a, complex) for a, _ in terms):
+            # keep KEY_CPLX out of this stratum: one Python-complex parameter in front of the first plain product
+            p = expr[0][1]
+            while p["f"] and p["f"][-1][0] == "sum":
+                p = p["f"][-1][3]
+            st["params"]["gc"] = {"amp": [rng.choice([1, 2, -1]), 0, "complex"]}
+            p["s"] = ([" "] if p["f"] else []) + p["s"]
+            p["f"] = [["par", "gc"]] + p["f"]
+        return expr, st["params"]
+    return None
+
+
+def gx_values(params, N):
+    """python values of the parameters (site-indexed; labels are applied when the dictionary for the real code is built)"""
+    out = {}
+    for nm, p in params.items():
+        if "amp" in p:
+            out[nm] = amp_value(p["amp"])
+        elif "arr" in p:
+            a = np.array([complex(re, im) if p["cplx"] else re for re, im in p["arr"]])
+            out[nm] = a.reshape(p["shape"])
+        else:
+            out[nm] = p["list"]
+    return out
+
+
+def gx_expand(expr, env, vals):
+    """distributive expansion: list of (amplitude, [(site, operator name), ...]) -- the specification of the string"""
+    out = []
+    for sign, prod in expr:
+        out += [(sign * a, o) for a, o in gx_expand_prod(prod, env, vals)]
+    return out
+
+
+def gx_expand_prod(prod, env, vals):
+    res = [(1, [])]
+    site = lambda ix: env[ix] if isinstance(ix, str) else ix     # noqa: E731
+    for f in prod["f"]:
+        t = f[0]
+        if t == "num":
+            alts = [(float(f[1]), [])]
+        elif t == "par":
+            alts = [(vals[f[1]], [])]
+        elif t == "imag":
+            alts = [(1j, [])]
+        elif t == "elt":
+            v = vals[f[1]][tuple(site(ix) for ix in f[2])]
+            alts = [(complex(v) if np.iscomplexobj(v) else float(v), [])]
+        elif t == "op":
+            alts = [(1, [(site(f[2]), f[1])])]
+        elif t == "br":
+            alts = gx_expand(f[1], env, vals)
+        else:
+            alts = []
+            for val in vals[f[2]]:
+                bind = dict(env)
+                bind.update(zip(f[1], val if isinstance(val, (list, tuple)) else [val]))
+                alts += gx_expand_prod(f[3], bind, vals)
+        res = [(a * b, o + o2) for a, o in res for b, o2 in alts]
+    return res
+
+
+def gx_render(expr, labels):
+    out = ""
+    for i, (sign, prod) in enumerate(expr):
+        out += ("- " if sign < 0 else "") if i == 0 else (" - " if sign < 0 else " + ")
+        out += gx_render_prod(prod, labels)
+    return out
+
+
+def gx_render_prod(prod, labels):
+    lab = lambda ix: ix if isinstance(ix, str) else labels[ix]     # noqa: E731
+    out = ""
+    for i, f in enumerate(prod["f"]):
+        t = f[0]
+        if t == "num":
+            s = f[1]
+        elif t == "par":
+            s = f[1]
+        elif t == "imag":
+            s = "1j"
+        elif t == "elt":
+            s = f"{f[1]}_{{{','.join(lab(ix) for ix in f[2])}}}"
+        elif t == "op":
+            s = f"{latex_name(f[1])}_{{{lab(f[2])}}}"
+        elif t == "br":
+            s = "(" + gx_render(f[1], labels) + ")"
+        else:
+            s = rf"\sum_{{{','.join(f[1])} \in {f[2]}}} " + gx_render_prod(f[3], labels)
+        out += (prod["s"][i - 1] if i else "") + s
+    return out
+
+
+def gx_count_features(ctx, expr, terms):
+    def walk(e, acc):
+        for sign, prod in e:
+            if sign < 0:
+                acc.add("minus")
+            seen_scalar = False
+            for f in prod["f"]:
+                if f[0] in ("num", "par", "imag", "elt"):
+                    if f[0] == "num" and (seen_scalar or sign < 0):
+                        acc.add("literal-after-other-factor")
+                    seen_scalar = True
+                    acc.add({"num": "literal", "par": "parameter", "imag": "1j", "elt": "array-element"}[f[0]])
+                elif f[0] == "br":
+                    acc.add("brackets")
+                    walk(f[1], acc)
+                elif f[0] == "sum":
+                    acc.add("sum" if len(f[1]) == 1 else "sum-2-index")
+                    if f[3]["f"] and f[3]["f"][-1][0] == "sum":
+                        acc.add("nested-sum")
+                    walk([[1, f[3]]], acc)
+        return acc
+    for k in sorted(walk(expr, set())):
+        ctx.count(f"latex-expr:has:{k}")
+    ctx.count(f"latex-expr:expanded-terms={'1' if len(terms) == 1 else '2-5' if len(terms) <= 5 else '6-15' if len(terms) <= 15 else '16+'}")
+
+
+def check_latex_expr_case(ctx, case):
+    """case: {kind:'latex-expr', fam, N, labels, expr, params, ctor:[parameter names given at construction], stratum}"""
+    import yastn.tn.mps as mps
+    fam = fam_by_key(case["fam"])
+    N, labels, expr, stratum = case["N"], case["labels"], case["expr"], case["stratum"]
+    vals = gx_values(case["params"], N)
+    terms = gx_expand(expr, {}, vals)
+    ref_terms = [((complex(a).real, complex(a).imag), [p for p, _ in o], [n for _, n in o]) for a, o in terms]
+    ref = dense_terms(fam, N, list(range(N)), ref_terms)
+    scale = max(1.0, sum(abs(complex(*t[0])) * float(np.prod([max(1.0, np.abs(fam.table[n_][1]).sum(axis=1).max()) for n_ in t[2]]))
+                         for t in ref_terms))
+    H_str = gx_render(expr, labels)
+    # parameters as the real code wants them: arrays indexed by site number, lists holding the site LABELS
+    real = {}
+    for nm, p in case["params"].items():
+        if "list" in p:
+            real[nm] = [tuple(labels[s] for s in v) if isinstance(v, list) else labels[v] for v in p["list"]]
+        else:
+            real[nm] = vals[nm]
+    ctor = {k: v for k, v in real.items() if k in set(case.get("ctor") or [])}
+    call = {k: v for k, v in real.items() if k not in ctor}
+    gate = {"scaled-sum-brackets": KEY_LATEX_SCALED_SUM, "juxtaposed-sum": KEY_LATEX_JUXT_SUM}.get(stratum)
+    gx_count_features(ctx, expr, terms)
+
+    def report(what, raised):
+        if gate is not None:
+            ctx.count(f"latex-expr:{stratum}:{'raised:' + raised if raised else 'mismatch'}")
+            if not key_registered(gate):
+                if not any(n.startswith(f"candidate defect {gate}") for n in ctx.notes):
+                    ctx.notes.append(f"candidate defect {gate} (not registered, no alarm): {what}")
+                return True
+            ctx.fail("oracle", gate, what, case=dict(case), concrete=True)
+            return False
+        ctx.count("latex-expr:FAIL")
+        ctx.fail("oracle", "c07:generator-latex:raised" if raised else "c07:generator-latex:expression", what, case=dict(case), concrete=True)
+        return False
+
+    try:
+        gen = mps.Generator(N, fam.ops, map={labels[i]: i for i in range(N)}, parameters=dict(ctor) if ctor else None)
+        H = gen.mpo_from_latex(H_str, parameters=dict(call))
+        got = mpo_dense(fam, H, N)
+    except Exception as e:  # noqa: BLE001 - RecursionError included: the string is in the documented dialect
+        return report(f"Generator.mpo_from_latex raised {type(e).__name__}: {str(e)[:120]} for {H_str!r} "
+                      f"({fam.key}, N={N}, site labels {labels}, parameters {sorted(real)})", type(e).__name__)
+    err = float(np.abs(got - ref).max())
+    if not np.all(np.isfinite(got)) or err > 1e-9 * scale:
+        return report(f"Generator.mpo_from_latex({H_str!r}) differs by {err:.3g} (scale {scale:.3g}) from the Jordan-Wigner sum of the "
+                      f"{len(terms)} products obtained by expanding the brackets and sums and multiplying ALL scalar factors of each product "
+                      f"({fam.key}, N={N}, site labels {labels}, parameters { {k: v for k, v in real.items() if not isinstance(v, np.ndarray)} })", None)
+    ctx.count(f"latex-expr:{stratum}:ok")
+    return True
+
+
+def gen_latex_expr_case(fam, rng, quick, stratum):
+    N = pick_N(fam, rng, quick)
+    g = gx_generate(fam, N, rng, stratum)
+    if g is None:
+        return None
+    expr, params = g
+    labels = [str(i) for i in range(N)]
+    if rng.random() < 0.4:                      # custom site labels (Generator(map=...)): any distinct strings
+        labels = rng.sample([str(i) for i in range(10, 40)] + ["a", "b", "s1", "s2", "x3", "0", "1", "2"], N)
+    ctor = [k for k in params if rng.random() < 0.25]
+    return {"kind": "latex-expr", "fam": fam.key, "N": N, "labels": labels, "expr": expr, "params": params, "ctor": ctor,
+            "stratum": stratum}
+
+
+# ----------------------------------------------------------------------------------------------------
 # tables: generated Lean data vs live operators
 # ----------------------------------------------------------------------------------------------------
 
@@ -1287,6 +1746,8 @@ def malformed_stream(ctx, fam, rng):
         streams.append(("charge-mismatch", [mps.Hterm(1.0, (0,), (fam.table[nm][0],)), mps.Hterm(1.0, (1,), (fam.table["I"][0],))]))
     streams.append(("count-mismatch", [mps.Hterm(1.0, (0, 1), (fam.table["I"][0],))]))
     streams.append(("negative-site", [mps.Hterm(1.0, (-1,), (fam.table["I"][0],))]))
+    streams.append(("site-equals-N", [mps.Hterm(1.0, (N,), (fam.table["I"][0],))]))
+    streams.append(("site-above-N", [mps.Hterm(1.0, (N + 1,), (fam.table["I"][0],))]))
     for tag, terms in streams:
         try:
             mps.generate_mpo(I, terms)
@@ -1332,7 +1793,18 @@ def run(ctx):
                 "integer keys / per-site dict; 1-9 samples; drawn configurations must have non-zero Born probability). Every state "
                 "entering a measurement is used as generated or RE-GAUGED through public methods (canonize_ to first / last / both "
                 "orders, mixed canonical around a random site, SVD sweeps truncate_ to last / first, norm dropped or kept in "
-                "psi.factor); the dense reference is recomputed from the re-gauged MPS. Non-trivial = at least one charged "
+                "psi.factor); the dense reference is recomputed from the re-gauged MPS. LaTeX Generator also on FREE-FORM expressions: a "
+                "random expression tree (1-3 signed top-level items; products of 1-3 operators in which consecutive chunks may be "
+                "replaced by nested brackets holding 2-3 signed alternatives of the same charge, incl. pure numbers; 0-3 scalar factors "
+                "per product drawn from numeric literals, named int/float/complex parameters, 1j, elements of vector/matrix parameters, "
+                "inserted anywhere and joined by ' ', ' * ' or '*'; \\sum over one or two iterators of random site / bond lists with "
+                "repetitions, nested sums, a sign or `factor *` in front of a sum; identity or custom string site labels; parameters "
+                "split between Generator(...) and the call) is rendered to a string and, independently, expanded by the distributive "
+                "law into <= 48 products whose NumPy JW sum is the reference; forms that break the unchanged parser (`factor * \\sum` "
+                "or `- \\sum` with brackets in the body; a factor juxtaposed to \\sum without `*`) are generated in their own gated "
+                "strata. measure_1site / measure_2site also with operators that DIFFER from site to site (dict {site: c_site * A_site "
+                "[+ c' * A'_site]} of one charge on a random subset of sites in arbitrary order, O and/or P, pattern strings with "
+                "equal-site bonds, explicit bond lists with (i, i), single bonds) against <bra|O[i]_i P[j]_j|ket>. Non-trivial = at least one charged "
                 "or non-diagonal operator or a repeated/unordered site tuple; distinct by full case content. Stratum 'zero-onsite' "
                 "(finding D8) is generated and reported separately.")
     ctx.assumptions.append("dense matrices are read in the product basis of sector-ordered local bases through Tensor.to_numpy(legs=...) (C01)")
@@ -1388,6 +1860,16 @@ def run(ctx):
                 ctx.count(f"latex:history:defaults={'all' if case['noarg'] is not None else 'some' if case['ctor'] else 'none'}")
             ctx.case(case)
             guarded(ctx, check_latex_case, case)
+        # LaTeX generator, free-form expressions: literals, several scalar factors per product, brackets, sums, custom site labels
+        if fam.names != ["I"]:
+            for stratum, cnt in (("main", 4 if quick else 14), ("scaled-sum-brackets", 1 if quick else 2), ("juxtaposed-sum", 1 if quick else 2)):
+                for _l in range(cnt):
+                    case = gen_latex_expr_case(fam, rng, quick, stratum)
+                    if case is None:
+                        ctx.count(f"latex-expr:{stratum}:no-case")
+                        continue
+                    ctx.case(case)
+                    guarded(ctx, check_latex_expr_case, case)
         malformed_stream(ctx, fam, rng)
 
     # ---------------- measurements ------------------------------------------------------------------
@@ -1400,7 +1882,8 @@ def run(ctx):
             # 1-site
             nm = rng.choice(charged) if charged and rng.random() < 0.6 else rng.choice(pool)
             case = {"kind": "measure", "which": "1site", "fam": fam.key, "N": N, "names": [nm], "seed": rng.randrange(2 ** 40),
-                    "cplx": rng.random() < 0.3, "gauge": [rand_gauge(rng), rand_gauge(rng)], "user_orders": 3 if quick else 6}
+                    "cplx": rng.random() < 0.3, "gauge": [rand_gauge(rng), rand_gauge(rng)], "user_orders": 3 if quick else 6,
+                    "site_dependent": 2 if quick else 4}
             ctx.case(case)
             guarded(ctx, check_measure_case, case)
             # 2-site: every pattern
@@ -1408,7 +1891,7 @@ def run(ctx):
                 names = [rng.choice(charged) if charged and rng.random() < 0.7 else rng.choice(pool) for _ in range(2)]
                 case = {"kind": "measure", "which": "2site", "fam": fam.key, "N": N, "names": names, "seed": rng.randrange(2 ** 40),
                         "patterns": list(PATTERNS), "cplx": rng.random() < 0.3, "gauge": [rand_gauge(rng), rand_gauge(rng)],
-                        "user_orders": 2 if quick else 4}
+                        "user_orders": 2 if quick else 4, "site_dependent": 2 if quick else 4}
                 ctx.case(case)
                 guarded(ctx, check_measure_case, case)
             # n-site
@@ -1496,6 +1979,8 @@ def replay(ctx, obj):
         check_sample_case(ctx, case)
     elif kind == "latex":
         check_latex_case(ctx, case)
+    elif kind == "latex-expr":
+        check_latex_expr_case(ctx, case)
     elif kind == "parse_bonds":
         check_parse_bonds(ctx)
     else:
